@@ -2,6 +2,7 @@
   C23 — property theorems for the cryptobyte ASN.1 readers / builders (model: XC.Model.C23).
 -/
 import XC.Proofs.C23
+set_option maxRecDepth 8192
 namespace XC.C23
 
 /-! ### readASN1 accepts exactly DER -/
@@ -62,64 +63,36 @@ theorem readAnyASN1_canonical (s s' : Bytes) (t : UInt8) (body : Bytes)
 
 /-! ### INTEGER -/
 
-/-- **checkASN1Integer = DER minimality**: the contents are accepted iff they are a shortest non-empty
-    two's-complement representation of their value. -/
-theorem checkASN1Integer_iff_shortest (bs : Bytes) :
-    checkASN1Integer bs = true ↔
-      bs ≠ [] ∧ ∀ bs' : Bytes, bs' ≠ [] → twosVal bs' = twosVal bs → bs.length ≤ bs'.length := by
-  match bs with
-  | [] => simp [checkASN1Integer]
-  | [a] =>
-    simp only [checkASN1Integer, ne_eq, List.cons_ne_self, not_false_eq_true, List.length_cons,
-      List.length_nil, true_and, true_iff, reduceCtorEq]
-    intro bs' hne _
-    cases bs' with
-    | nil => exact absurd rfl hne
-    | cons c r => simp
-  | b0 :: b1 :: rest =>
-    constructor
-    · intro h
-      refine ⟨by simp, ?_⟩
-      intro bs' hne hv
-      cases bs' with
-      | nil => exact absurd rfl hne
-      | cons c0 rest' =>
-        by_cases hlen : rest'.length ≤ rest.length
-        · exfalso
-          have hA := twosVal_range c0 rest'
-          have hB := twosVal_minimal_big b0 b1 rest h
-          rw [hv] at hA
-          have hmono : (256 ^ rest'.length : Nat) ≤ 256 ^ rest.length := Nat.pow_le_pow_right (by decide) hlen
-          generalize twosVal (b0 :: b1 :: rest) = v at *
-          generalize (256 ^ rest'.length : Nat) = P' at *
-          generalize (256 ^ rest.length : Nat) = P at *
-          omega
-        · simp only [List.length_cons]; omega
-    · intro ⟨_, h⟩
-      by_cases hc : checkASN1Integer (b0 :: b1 :: rest) = true
-      · exact hc
-      · have hC := twosVal_redundant b0 b1 rest (by simpa using hc)
-        have := h (b1 :: rest) (by simp) hC.symm
-        simp only [List.length_cons] at this
-        omega
+theorem checkASN1Integer_ne_nil (bs : Bytes) (h : checkASN1Integer bs = true) : bs ≠ [] := by
+  intro h0; subst h0; simp [checkASN1Integer] at h
 
-/-- the accepted encoding of a value is unique -/
-theorem checkASN1Integer_unique (a b : Bytes) (ha : checkASN1Integer a = true) (hb : checkASN1Integer b = true)
-    (hv : twosVal a = twosVal b) : a.length = b.length := by
-  obtain ⟨ha0, ha1⟩ := (checkASN1Integer_iff_shortest a).mp ha
-  obtain ⟨hb0, hb1⟩ := (checkASN1Integer_iff_shortest b).mp hb
-  have := ha1 b hb0 hv.symm
-  have := hb1 a ha0 hv
-  omega
+theorem readIntBody_iff (tag : UInt8) (s body r : Bytes) :
+    readIntBody tag s = some (body, r) ↔ readASN1Tag tag s = some (body, r) ∧ checkASN1Integer body = true := by
+  unfold readIntBody
+  cases hr : readASN1Tag tag s with
+  | none => simp
+  | some p =>
+    obtain ⟨b, r'⟩ := p
+    by_cases hc : checkASN1Integer b = true
+    · simp only [hc, if_true, Option.some.injEq, Prod.mk.injEq]
+      constructor
+      · rintro ⟨rfl, rfl⟩; exact ⟨⟨rfl, rfl⟩, hc⟩
+      · rintro ⟨⟨rfl, rfl⟩, _⟩; exact ⟨rfl, rfl⟩
+    · simp only [hc, Bool.false_eq_true, if_false, Option.some.injEq, Prod.mk.injEq, false_iff, not_and,
+        reduceCtorEq]
+      rintro ⟨rfl, rfl⟩; exact hc
 
-/-- `asn1Signed`'s length limit is exactly the int64 range (for minimal contents) -/
-theorem int64_range_iff (bs : Bytes) (h : checkASN1Integer bs = true) :
-    bs.length ≤ 8 ↔ (-(2 : Int) ^ 63 ≤ twosVal bs ∧ twosVal bs < (2 : Int) ^ 63) := by
+/-- for minimal contents: at most `k` octets ⇔ the value fits `8k` bits two's complement -/
+theorem len_le_iff_range (bs : Bytes) (h : checkASN1Integer bs = true) (k : Nat) (hk : 1 ≤ k) :
+    bs.length ≤ k ↔ (-(128 * ((256 ^ (k - 1) : Nat) : Int)) ≤ twosVal bs ∧
+      twosVal bs < 128 * ((256 ^ (k - 1) : Nat) : Int)) := by
+  have hk1 : 1 ≤ 256 ^ (k - 1) := Nat.pow_pos (by decide)
   match bs, h with
   | [a], _ =>
     have := twosVal_range a []
     simp only [List.length_nil, Nat.pow_zero] at this
     simp only [List.length_cons, List.length_nil]
+    generalize (256 ^ (k - 1) : Nat) = K at *
     constructor
     · intro _; omega
     · intro _; omega
@@ -131,54 +104,206 @@ theorem int64_range_iff (bs : Bytes) (h : checkASN1Integer bs = true) :
     generalize twosVal (b0 :: b1 :: rest) = v at *
     constructor
     · intro hl
-      have hmono : (256 ^ rest.length : Nat) ≤ 256 ^ 6 := Nat.pow_le_pow_right (by decide) (by omega)
+      have hmono : (256 ^ (rest.length + 1) : Nat) ≤ 256 ^ (k - 1) := Nat.pow_le_pow_right (by decide) (by omega)
+      rw [Nat.pow_succ] at hmono
       generalize (256 ^ rest.length : Nat) = P at *
+      generalize (256 ^ (k - 1) : Nat) = K at *
       omega
     · intro hr
-      by_cases hl : rest.length ≤ 6
-      · omega
+      by_cases hl : rest.length + 1 + 1 ≤ k
+      · exact hl
       · exfalso
-        have hmono : (256 ^ 7 : Nat) ≤ 256 ^ rest.length := Nat.pow_le_pow_right (by decide) (by omega)
+        have hmono : (256 ^ (k - 1) : Nat) ≤ 256 ^ rest.length := Nat.pow_le_pow_right (by decide) (by omega)
         generalize (256 ^ rest.length : Nat) = P at *
+        generalize (256 ^ (k - 1) : Nat) = K at *
         omega
 
-
-
-/-- ReadASN1Integer(*int64) accepts exactly: an INTEGER element whose contents are the shortest
-    two's-complement form of a value in the int64 range, and returns that value -/
-theorem readInt64_iff (s r : Bytes) (v : Int) :
-    readSigned 64 s = some (v, r) ↔
-      ∃ body, readASN1Tag 2 s = some (body, r) ∧ checkASN1Integer body = true ∧ twosVal body = v ∧
+/-- ReadASN1Int64WithTag / readASN1Int64 / ReadASN1Enum's core -/
+theorem readInt64Tag_iff (tag : UInt8) (s r : Bytes) (v : Int) :
+    readInt64Tag tag s = some (v, r) ↔
+      ∃ body, readASN1Tag tag s = some (body, r) ∧ checkASN1Integer body = true ∧ twosVal body = v ∧
         -(2 : Int) ^ 63 ≤ v ∧ v < (2 : Int) ^ 63 := by
-  unfold readSigned readInt64Tag readIntBody asn1Signed
+  unfold readInt64Tag
   constructor
   · intro h
-    cases hr : readASN1Tag 2 s with
-    | none => simp [hr] at h
+    cases hb : readIntBody tag s with
+    | none => simp [hb] at h
     | some p =>
       obtain ⟨b, r'⟩ := p
-      simp only [hr] at h
-      by_cases hc : checkASN1Integer b = true
-      · simp only [hc, if_true] at h
-        by_cases hl : b.length > 8
-        · simp [hl] at h
-        · simp only [hl, if_false, Option.map_some] at h
-          have hrange := (int64_range_iff b hc).mp (by omega)
-          split at h
-          · simp at h
-          · simp only [Option.some.injEq, Prod.mk.injEq] at h
-            obtain ⟨h1, h2⟩ := h
-            subst h1 h2
-            exact ⟨b, rfl, hc, rfl, hrange.1, hrange.2⟩
-      · simp [hc] at h
+      obtain ⟨hr, hc⟩ := (readIntBody_iff tag s b r').mp hb
+      simp only [hb, asn1Signed_spec b (checkASN1Integer_ne_nil b hc)] at h
+      by_cases hl : b.length > 8
+      · simp [hl] at h
+      · simp only [hl, if_false, Option.map_some, Option.some.injEq, Prod.mk.injEq] at h
+        obtain ⟨h1, h2⟩ := h
+        subst h1 h2
+        have := (len_le_iff_range b hc 8 (by omega)).mp (by omega)
+        simp only [Nat.reduceSub, Nat.reducePow] at this
+        exact ⟨b, hr, hc, rfl, by omega, by omega⟩
   · rintro ⟨body, hr, hc, hv, h1, h2⟩
-    have hl := (int64_range_iff body hc).mpr (by rw [hv]; exact ⟨h1, h2⟩)
-    simp only [hr, hc, if_true, show ¬ body.length > 8 by omega, if_false, Option.map_some, hv]
-    have : ¬ ((decide (v < -(2 : Int) ^ (64 - 1)) || decide (v ≥ (2 : Int) ^ (64 - 1))) = true) := by
-      simp only [Bool.or_eq_true, decide_eq_true_eq, not_or]
-      constructor <;> omega
-    rw [if_neg this]
+    have hl : body.length ≤ 8 := (len_le_iff_range body hc 8 (by omega)).mpr (by
+      simp only [Nat.reduceSub, Nat.reducePow]; omega)
+    have hb := (readIntBody_iff tag s body r).mpr ⟨hr, hc⟩
+    simp only [hb, asn1Signed_spec body (checkASN1Integer_ne_nil body hc), show ¬ body.length > 8 by omega,
+      if_false, Option.map_some, hv]
 
+/-- **ReadASN1Integer into int8/int16/int32/int64/int** (`bits` = 8, 16, 32, 64): accepted iff the input starts
+    with an INTEGER whose contents are the shortest two's-complement form of a value of that type -/
+theorem readSigned_iff (bits : Nat) (hb : bits = 8 ∨ bits = 16 ∨ bits = 32 ∨ bits = 64) (s r : Bytes) (v : Int) :
+    readSigned bits s = some (v, r) ↔
+      ∃ body, readASN1Tag 2 s = some (body, r) ∧ checkASN1Integer body = true ∧ twosVal body = v ∧
+        -(2 : Int) ^ (bits - 1) ≤ v ∧ v < (2 : Int) ^ (bits - 1) := by
+  unfold readSigned
+  constructor
+  · intro h
+    cases h64 : readInt64Tag 2 s with
+    | none => simp [h64] at h
+    | some p =>
+      obtain ⟨v', r'⟩ := p
+      simp only [h64] at h
+      split at h
+      · simp at h
+      · rename_i hrange
+        simp only [Option.some.injEq, Prod.mk.injEq] at h
+        obtain ⟨h1, h2⟩ := h
+        subst h1 h2
+        obtain ⟨body, hr, hc, hv, _, _⟩ := (readInt64Tag_iff 2 s r' v').mp h64
+        simp only [Bool.or_eq_true, decide_eq_true_eq, not_or, Int.not_lt] at hrange
+        exact ⟨body, hr, hc, hv, hrange.1, by omega⟩
+  · rintro ⟨body, hr, hc, hv, h1, h2⟩
+    have h64 : readInt64Tag 2 s = some (v, r) := (readInt64Tag_iff 2 s r v).mpr
+      ⟨body, hr, hc, hv, by rcases hb with rfl | rfl | rfl | rfl <;> simp at h1 ⊢ <;> omega,
+        by rcases hb with rfl | rfl | rfl | rfl <;> simp at h2 ⊢ <;> omega⟩
+    simp only [h64]
+    rw [if_neg]
+    simp only [Bool.or_eq_true, decide_eq_true_eq, not_or, Int.not_lt]
+    exact ⟨h1, by omega⟩
+
+/-- ReadASN1Enum (Go `int` = int64 on amd64) -/
+theorem readEnum_iff (s r : Bytes) (v : Int) :
+    readEnum s = some (v, r) ↔
+      ∃ body, readASN1Tag 10 s = some (body, r) ∧ checkASN1Integer body = true ∧ twosVal body = v ∧
+        -(2 : Int) ^ 63 ≤ v ∧ v < (2 : Int) ^ 63 := readInt64Tag_iff 10 s r v
+
+/-- ReadASN1Integer(*big.Int): any minimal INTEGER, value = two's complement of the contents -/
+theorem readBigInt_iff (s r : Bytes) (v : Int) :
+    readBigInt s = some (v, r) ↔
+      ∃ body, readASN1Tag 2 s = some (body, r) ∧ checkASN1Integer body = true ∧ twosVal body = v := by
+  unfold readBigInt
+  cases hb : readIntBody 2 s with
+  | none =>
+    simp only [Option.map_none, false_iff, not_exists, reduceCtorEq]
+    intro body ⟨hr, hc, _⟩
+    have := (readIntBody_iff 2 s body r).mpr ⟨hr, hc⟩
+    rw [hb] at this; cases this
+  | some p =>
+    obtain ⟨b, r'⟩ := p
+    obtain ⟨hr, hc⟩ := (readIntBody_iff 2 s b r').mp hb
+    simp only [Option.map_some, Option.some.injEq, Prod.mk.injEq]
+    constructor
+    · rintro ⟨rfl, rfl⟩; exact ⟨b, hr, hc, rfl⟩
+    · rintro ⟨body, hr', hc', hv⟩
+      rw [hr] at hr'
+      simp only [Option.some.injEq, Prod.mk.injEq] at hr'
+      obtain ⟨rfl, rfl⟩ := hr'
+      exact ⟨hv, rfl⟩
+
+
+/-- non-negative contents: value = big-endian value -/
+theorem twosVal_nonneg_iff (b0 : UInt8) (rest : Bytes) :
+    (0 ≤ twosVal (b0 :: rest) ↔ b0.toNat < 128) ∧
+    (b0.toNat < 128 → twosVal (b0 :: rest) = natOfBE (b0 :: rest)) := by
+  have hlt := natOfBE_lt (b0 :: rest)
+  have e : twosVal (b0 :: rest) = if (b0 &&& 0x80 == 0x80) = true then
+      (natOfBE (b0 :: rest) : Int) - (256 : Int) ^ (b0 :: rest).length else (natOfBE (b0 :: rest) : Int) := rfl
+  rw [neg_bit'] at e
+  have hP : ((256 ^ (b0 :: rest).length : Nat) : Int) = (256 : Int) ^ (b0 :: rest).length := by
+    rw [Int.natCast_pow]; rfl
+  rw [← hP] at e
+  generalize (256 ^ (b0 :: rest).length : Nat) = P at *
+  generalize natOfBE (b0 :: rest) = N at *
+  by_cases h : 128 ≤ b0.toNat
+  · rw [if_pos (by simpa using h)] at e
+    constructor
+    · constructor <;> intro _ <;> omega
+    · intro _; omega
+  · rw [if_neg (by simpa using h)] at e
+    constructor
+    · constructor <;> intro _ <;> omega
+    · intro _; exact e
+
+/-- **ReadASN1Integer into uint8/uint16/uint32/uint64/uint** -/
+theorem readUnsigned_iff (bits : Nat) (hb : bits = 8 ∨ bits = 16 ∨ bits = 32 ∨ bits = 64) (s r : Bytes) (v : Nat) :
+    readUnsignedInt bits s = some (v, r) ↔
+      ∃ body, readASN1Tag 2 s = some (body, r) ∧ checkASN1Integer body = true ∧ twosVal body = (v : Int) ∧
+        v < 2 ^ bits := by
+  have h64 : (2 : Nat) ^ bits ≤ 2 ^ 64 := by rcases hb with rfl | rfl | rfl | rfl <;> decide
+  unfold readUnsignedInt
+  constructor
+  · intro h
+    cases hbd : readIntBody 2 s with
+    | none => simp [hbd] at h
+    | some p =>
+      obtain ⟨b, r'⟩ := p
+      obtain ⟨hr, hc⟩ := (readIntBody_iff 2 s b r').mp hbd
+      simp only [hbd] at h
+      match b, hc with
+      | b0 :: rest, hc =>
+        rw [asn1Unsigned_spec] at h
+        by_cases c1 : (decide ((b0 :: rest).length > 9) || ((b0 :: rest).length == 9 && b0 != 0)) = true
+        · rw [if_pos c1] at h; simp at h
+        · rw [if_neg c1] at h
+          by_cases hneg : (b0 &&& 0x80 != 0) = true
+          · rw [if_pos hneg] at h; simp at h
+          · rw [if_neg hneg] at h
+            simp only at h
+            by_cases hrange : natOfBE (b0 :: rest) ≥ 2 ^ bits
+            · rw [if_pos hrange] at h; simp at h
+            · rw [if_neg hrange] at h
+              simp only [Option.some.injEq, Prod.mk.injEq] at h
+              obtain ⟨h1, h2⟩ := h
+              subst h1 h2
+              have hb0 : b0.toNat < 128 := by
+                have := pos_bit' b0
+                simp only [bne_iff_ne, ne_eq, Decidable.not_not] at hneg
+                rw [hneg] at this
+                simpa using this.symm
+              exact ⟨b0 :: rest, hr, hc, (twosVal_nonneg_iff b0 rest).2 hb0, by omega⟩
+  · rintro ⟨body, hr, hc, hv, hlt⟩
+    have hbd := (readIntBody_iff 2 s body r).mpr ⟨hr, hc⟩
+    simp only [hbd]
+    match body, hc, hv with
+    | b0 :: rest, hc, hv =>
+      have hb0 : b0.toNat < 128 := ((twosVal_nonneg_iff b0 rest).1).mp (by rw [hv]; omega)
+      have hnat : natOfBE (b0 :: rest) = v := by
+        have := (twosVal_nonneg_iff b0 rest).2 hb0
+        rw [hv] at this; omega
+      have hl9 : (b0 :: rest).length ≤ 9 := (len_le_iff_range _ hc 9 (by omega)).mpr (by
+        simp only [Nat.reduceSub, Nat.reducePow]; rw [hv]; omega)
+      have h9 : (b0 :: rest).length = 9 → b0 = 0 := by
+        intro hl
+        have hrl : rest.length = 8 := by simp only [List.length_cons] at hl; omega
+        rw [natOfBE_cons, hrl] at hnat
+        have : b0.toNat = 0 := by
+          by_cases hz : b0.toNat = 0
+          · exact hz
+          · exfalso
+            have : 1 * 256 ^ 8 ≤ b0.toNat * 256 ^ 8 := Nat.mul_le_mul_right _ (by omega)
+            omega
+        exact UInt8.toNat_inj.mp (by simpa using this)
+      rw [asn1Unsigned_spec]
+      have c1 : ¬ ((decide ((b0 :: rest).length > 9) || ((b0 :: rest).length == 9 && b0 != 0)) = true) := by
+        simp only [Bool.or_eq_true, decide_eq_true_eq, Bool.and_eq_true, beq_iff_eq, bne_iff_ne, ne_eq, not_or,
+          not_and, Decidable.not_not]
+        exact ⟨by omega, h9⟩
+      have c2 : ¬ ((b0 &&& 0x80 != 0) = true) := by
+        have := pos_bit' b0
+        simp only [bne_iff_ne, ne_eq, Decidable.not_not]
+        have hd : (b0 &&& 0x80 == 0) = true := by rw [this]; simpa using hb0
+        simpa using hd
+      rw [if_neg c1, if_neg c2]
+      simp only [hnat]
+      rw [if_neg (by omega)]
 
 /-! ### builder → reader round trips -/
 
@@ -252,5 +377,228 @@ theorem bool_contents (s : Bytes) (v : Bool) (rest : Bytes) (h : readBool s = so
 
 theorem base128_no_0x80_lead (fuel : Nat) (s : Bytes) : readBase128 fuel true 0 (0x80 :: s) = none := by
   cases fuel <;> simp [readBase128]
+
+/-! ### INTEGER builders -/
+
+theorem inR8_iff (v : Int) : inR 8 v ↔ (-(2 : Int) ^ 63 ≤ v ∧ v < (2 : Int) ^ 63) := by
+  unfold inR; simp only [Nat.reduceSub, Nat.reducePow]; constructor <;> intro h <;> omega
+
+/-- **addInt_minimal**: for every int64 the octets AddASN1Int64 / AddASN1Enum / AddASN1Int64WithTag emit are
+    at most 8, are the shortest two's-complement form (what checkASN1Integer accepts) and denote `v` -/
+theorem addInt_minimal (v : Int) (h1 : -(2 : Int) ^ 63 ≤ v) (h2 : v < (2 : Int) ^ 63) :
+    signedLen 8 v ≤ 8 ∧ checkASN1Integer (intBytes (signedLen 8 v) v) = true ∧
+      twosVal (intBytes (signedLen 8 v) v) = v := by
+  have h8 : inR 8 v := (inR8_iff v).mpr ⟨h1, h2⟩
+  obtain ⟨s1, s2, s3, s4⟩ := signedLen_spec 8 v (inR_mono 8 9 (by omega) v h8)
+  have hle : signedLen 8 v ≤ 8 := by
+    by_cases h : signedLen 8 v ≤ 8
+    · exact h
+    · exfalso
+      have h9 : signedLen 8 v = 9 := by omega
+      exact s4 (by omega) (by rw [h9]; exact h8)
+  exact ⟨hle, intBytes_minimal _ v s1 s3 s4⟩
+
+/-- AddASN1Int64WithTag / AddASN1Int64 / AddASN1Enum → ReadASN1Int64WithTag / ReadASN1Integer / ReadASN1Enum -/
+theorem addSigned_read (tag : UInt8) (v : Int) (out rest : Bytes) (h1 : -(2 : Int) ^ 63 ≤ v) (h2 : v < (2 : Int) ^ 63)
+    (h : addSigned tag v = some out) : readInt64Tag tag (out ++ rest) = some (v, rest) := by
+  obtain ⟨hl, hc, hv⟩ := addInt_minimal v h1 h2
+  have hr := addASN1_read tag _ out rest h (by rw [intBytes_length]; omega)
+  exact (readInt64Tag_iff tag (out ++ rest) rest v).mpr ⟨_, hr, hc, hv, h1, h2⟩
+
+theorem addInt64_read (v : Int) (out rest : Bytes) (h1 : -(2 : Int) ^ 63 ≤ v) (h2 : v < (2 : Int) ^ 63)
+    (h : addSigned 2 v = some out) : readSigned 64 (out ++ rest) = some (v, rest) := by
+  obtain ⟨hl, hc, hv⟩ := addInt_minimal v h1 h2
+  have hr := addASN1_read 2 _ out rest h (by rw [intBytes_length]; omega)
+  exact (readSigned_iff 64 (by simp) (out ++ rest) rest v).mpr ⟨_, hr, hc, hv, by simpa using h1, by simpa using h2⟩
+
+theorem addEnum_read (v : Int) (out rest : Bytes) (h1 : -(2 : Int) ^ 63 ≤ v) (h2 : v < (2 : Int) ^ 63)
+    (h : addSigned 10 v = some out) : readEnum (out ++ rest) = some (v, rest) :=
+  addSigned_read 10 v out rest h1 h2 h
+
+theorem unsignedLen_eq : ∀ (fuel v : Nat), unsignedLen fuel v = signedLen fuel (v : Int)
+  | 0, _ => rfl
+  | fuel + 1, v => by
+    unfold unsignedLen signedLen
+    have ih := unsignedLen_eq fuel (v / 256)
+    have hd : ((v / 256 : Nat) : Int) = (v : Int) / 256 := by simp
+    by_cases h : v ≥ 0x80
+    · rw [if_pos h, if_pos (by simp only [Bool.or_eq_true, decide_eq_true_eq]; left; omega), ih, hd]
+    · rw [if_neg h, if_neg (by simp only [Bool.or_eq_true, decide_eq_true_eq, not_or]; constructor <;> omega)]
+
+/-- AddASN1Uint64 → ReadASN1Integer(*uint64) -/
+theorem addUint64_read (v : Nat) (out rest : Bytes) (hv : v < 2 ^ 64) (h : addUint64 v = some out) :
+    readUnsignedInt 64 (out ++ rest) = some (v, rest) := by
+  unfold addUint64 at h
+  rw [unsignedLen_eq] at h
+  have h9 : inR 9 (v : Int) := by unfold inR; simp only [Nat.reduceSub, Nat.reducePow]; omega
+  obtain ⟨s1, s2, s3, s4⟩ := signedLen_spec 9 v (inR_mono 9 10 (by omega) _ h9)
+  obtain ⟨hc, hval⟩ := intBytes_minimal _ (v : Int) s1 s3 s4
+  have hr := addASN1_read 2 _ out rest h (by rw [intBytes_length]; omega)
+  exact (readUnsigned_iff 64 (by simp) (out ++ rest) rest v).mpr ⟨_, hr, hc, hval, hv⟩
+
+theorem natAbs_inR (v : Int) : inR (v.natAbs + 1 + 1) v := by
+  unfold inR
+  simp only [Nat.add_sub_cancel]
+  have : v.natAbs < 256 ^ (v.natAbs + 1) :=
+    Nat.lt_of_lt_of_le (Nat.lt_pow_self (by decide : 1 < 256)) (Nat.pow_le_pow_right (by decide) (by omega))
+  generalize (256 ^ (v.natAbs + 1) : Nat) = K at *
+  omega
+
+/-- AddASN1BigInt → ReadASN1Integer(*big.Int), for every integer (of fewer than 4 GiB octets) -/
+theorem addBigInt_read (v : Int) (out rest : Bytes) (hlen : bigLen v ≤ 0xfffffff9) (h : addBigInt v = some out) :
+    readBigInt (out ++ rest) = some (v, rest) := by
+  unfold addBigInt at h
+  obtain ⟨s1, s2, s3, s4⟩ := signedLen_spec (v.natAbs + 1) v (natAbs_inR v)
+  obtain ⟨hc, hval⟩ := intBytes_minimal (bigLen v) v s1 s3 s4
+  have hr := addASN1_read 2 _ out rest h (by rw [intBytes_length]; exact hlen)
+  exact (readBigInt_iff (out ++ rest) rest v).mpr ⟨_, hr, hc, hval⟩
+
+/-- AddASN1BigInt emits the shortest two's-complement form -/
+theorem addBigInt_minimal (v : Int) :
+    checkASN1Integer (intBytes (bigLen v) v) = true ∧ twosVal (intBytes (bigLen v) v) = v := by
+  obtain ⟨s1, s2, s3, s4⟩ := signedLen_spec (v.natAbs + 1) v (natAbs_inR v)
+  exact intBytes_minimal (bigLen v) v s1 s3 s4
+
+/-! ### BIT STRING -/
+
+/-- **ReadASN1BitString**: accepted iff the contents are `unused ‖ bytes` with `unused ≤ 7`, `unused = 0` when
+    there are no bytes, and the `unused` low bits of the last byte are zero; BitLength = 8·|bytes| − unused -/
+theorem bitstring_iff (s r bytes : Bytes) (n : Nat) :
+    readBitString s = some ((n, bytes), r) ↔
+      ∃ pad : UInt8, readASN1Tag 3 s = some (pad :: bytes, r) ∧ pad.toNat ≤ 7 ∧
+        (bytes = [] → pad = 0) ∧
+        (∀ last, bytes.getLast? = some last → last &&& ((1 <<< pad) - 1) = 0) ∧
+        n = bytes.length * 8 - pad.toNat := by
+  unfold readBitString
+  cases hr : readASN1Tag 3 s with
+  | none => simp
+  | some p =>
+    obtain ⟨c, r'⟩ := p
+    cases c with
+    | nil => simp
+    | cons pad bs =>
+      simp only [Option.some.injEq, Prod.mk.injEq, List.cons.injEq]
+      have hpad : (pad > 7) ↔ ¬ pad.toNat ≤ 7 := by
+        rw [gt_iff_lt, UInt8.lt_iff_toNat_lt]; simp
+      by_cases h7 : pad > 7
+      · rw [if_pos h7]
+        simp only [false_iff, not_exists, not_and, reduceCtorEq]
+        rintro p ⟨⟨rfl, rfl⟩, rfl⟩ hle
+        exact absurd hle (hpad.mp h7)
+      · rw [if_neg h7]
+        have hle : pad.toNat ≤ 7 := by
+          by_cases h : pad.toNat ≤ 7
+          · exact h
+          · exact absurd (hpad.mpr h) h7
+        cases hl : bs.getLast? with
+        | none =>
+          have hbs : bs = [] := by simpa using hl
+          subst hbs
+          by_cases h0 : pad = 0
+          · subst h0
+            simp only [bne_self_eq_false, Bool.false_eq_true, if_false, Option.some.injEq, Prod.mk.injEq]
+            constructor
+            · rintro ⟨⟨rfl, rfl⟩, rfl⟩
+              exact ⟨0, ⟨⟨rfl, rfl⟩, rfl⟩, by decide, fun _ => rfl, by simp, by simp⟩
+            · rintro ⟨p, ⟨⟨rfl, rfl⟩, rfl⟩, _, _, _, hn⟩
+              exact ⟨⟨by simpa using hn.symm, rfl⟩, rfl⟩
+          · rw [if_pos (by simpa using h0)]
+            simp only [false_iff, not_exists, not_and, reduceCtorEq]
+            rintro p ⟨⟨rfl, rfl⟩, rfl⟩ _ hz
+            exact absurd (hz rfl) h0
+        | some last =>
+          simp only
+          have hne : bs ≠ [] := by intro h; subst h; simp at hl
+          by_cases hm : last &&& ((1 <<< pad) - 1) = 0
+          · rw [if_neg (by simpa using hm)]
+            simp only [Option.some.injEq, Prod.mk.injEq]
+            constructor
+            · rintro ⟨⟨rfl, rfl⟩, rfl⟩
+              refine ⟨pad, ⟨⟨rfl, rfl⟩, rfl⟩, hle, fun h => absurd h hne, ?_, rfl⟩
+              intro l' hl'; rw [hl] at hl'; cases hl'; exact hm
+            · rintro ⟨p, ⟨⟨rfl, rfl⟩, rfl⟩, _, _, _, hn⟩
+              exact ⟨⟨hn.symm, rfl⟩, rfl⟩
+          · rw [if_pos (by simpa using hm)]
+            simp only [false_iff, not_exists, not_and, reduceCtorEq]
+            rintro p ⟨⟨rfl, rfl⟩, rfl⟩ _ _ hz
+            exact absurd (hz last hl) hm
+
+/-- ReadASN1BitStringAsBytes: whole bytes only (`unused = 0`) -/
+theorem bitbytes_iff (s r bytes : Bytes) :
+    readBitStringAsBytes s = some (bytes, r) ↔ readASN1Tag 3 s = some (0 :: bytes, r) := by
+  unfold readBitStringAsBytes
+  cases hr : readASN1Tag 3 s with
+  | none => simp
+  | some p =>
+    obtain ⟨c, r'⟩ := p
+    cases c with
+    | nil => simp
+    | cons pad bs =>
+      by_cases h0 : pad = 0
+      · subst h0; simp
+      · simp only [bne_iff_ne, ne_eq, h0, not_false_eq_true, if_true]
+        constructor
+        · intro h; cases h
+        · intro h
+          simp only [Option.some.injEq, Prod.mk.injEq, List.cons.injEq] at h
+          exact absurd h.1.1 h0
+
+/-! ### optional / default variants -/
+
+/-- absent tag: default value, present = false, the input is untouched -/
+theorem optional_absent (tag : UInt8) (s : Bytes) (h : peekTag tag s = false) :
+    readOptional tag s = some (false, [], s) ∧ skipOptional tag s = some s := by
+  simp [readOptional, skipOptional, h]
+
+theorem peekTag_false_iff (tag : UInt8) (s : Bytes) :
+    peekTag tag s = false ↔ s = [] ∨ ∃ b tl, s = b :: tl ∧ b ≠ tag := by
+  cases s with
+  | nil => simp [peekTag]
+  | cons b tl => simp [peekTag]
+
+/-- present tag: behaves exactly like ReadASN1(tag) -/
+theorem optional_present (tag : UInt8) (s : Bytes) (h : peekTag tag s = true) :
+    readOptional tag s = (readASN1Tag tag s).map (fun (b, r) => (true, b, r)) ∧
+    skipOptional tag s = (readASN1Tag tag s).map (·.2) := by
+  simp [readOptional, skipOptional, h]
+
+/-- **optional_spec** for the typed variants (INTEGER kinds, BOOLEAN, …): with `inner` the typed reader,
+    absent ⇒ (default, input untouched); present ⇒ the wrapper's contents must be exactly one value of `inner` -/
+theorem optional_spec {α : Type} (inner : Bytes → Option (α × Bytes)) (dflt : α) (tag : UInt8) (s : Bytes) :
+    readOptionalWith inner dflt tag s =
+      if peekTag tag s = false then some (dflt, s) else
+      match readASN1Tag tag s with
+      | some (b, r) =>
+        match inner b with
+        | some (v, []) => some (v, r)
+        | _ => none
+      | none => none := by
+  unfold readOptionalWith readOptional
+  by_cases h : peekTag tag s = true
+  · simp only [h, if_true, Bool.true_eq_false, if_false]
+    cases readASN1Tag tag s with
+    | none => rfl
+    | some p => obtain ⟨b, r⟩ := p; rfl
+  · have h' : peekTag tag s = false := by simpa using h
+    simp [h']
+
+/-- ReadOptionalASN1OctetString -/
+theorem optional_octets_spec (tag : UInt8) (s : Bytes) :
+    readOptionalOctets tag s =
+      if peekTag tag s = false then some (false, [], s) else
+      match readASN1Tag tag s with
+      | some (b, r) =>
+        match readASN1Tag 4 b with
+        | some (o, []) => some (true, o, r)
+        | _ => none
+      | none => none := by
+  unfold readOptionalOctets readOptional
+  by_cases h : peekTag tag s = true
+  · simp only [h, if_true, Bool.true_eq_false, if_false]
+    cases readASN1Tag tag s with
+    | none => rfl
+    | some p => obtain ⟨b, r⟩ := p; rfl
+  · have h' : peekTag tag s = false := by simpa using h
+    simp [h']
 
 end XC.C23
